@@ -450,4 +450,178 @@ theorem grun_fixed (args : List (List Nat)) (calls : List GCall) : ∀ (g : GSta
     rw [hca] at hi'
     exact ih g' hi' (fun c' hc' => hall c' (List.mem_cons_of_mem _ hc'))
 
+/-! ### pushd / popd / dirs -/
+
+theorem swapTop_spec (stack : List Bytes) (h : 2 ≤ stack.length) :
+    ∃ st top, swapTop stack = .ok (st, top) ∧ st.length = stack.length := by
+  unfold swapTop
+  simp only
+  rw [getI_ok _ _ (by omega) (by omega), getI_ok _ _ (by omega) (by omega)]
+  simp only
+  rw [setI_ok _ _ _ (by omega) (by omega)]
+  simp only
+  rw [setI_ok _ _ _ (by omega) (by simp only [List.length_set]; omega)]
+  exact ⟨_, _, rfl, by simp⟩
+
+theorem dstep_spec (fs : List Bytes) (s : DState) (op : DOp) (h : 1 ≤ s.stack.length) :
+    ∃ s' code out, dstep fs s op = .ok (s', code, out) ∧ 1 ≤ s'.stack.length := by
+  cases op with
+  | dirs => exact ⟨s, 0, _, rfl, h⟩
+  | cd path =>
+    simp only [dstep]
+    split
+    · exact ⟨s, 1, [], rfl, h⟩
+    · exact ⟨_, 0, [], rfl, h⟩
+  | pushd n args =>
+    simp only [dstep]
+    match args with
+    | [] =>
+      simp only
+      by_cases hn : (!(!n)) = true
+      · rw [if_pos hn]; exact ⟨s, 0, [], rfl, h⟩
+      · rw [if_neg hn]
+        by_cases h2 : s.stack.length < 2
+        · rw [if_pos h2]; exact ⟨s, 1, [], rfl, h⟩
+        · rw [if_neg h2]
+          obtain ⟨st, top, hs, hl⟩ := swapTop_spec s.stack (by omega)
+          rw [hs]
+          simp only
+          split
+          · exact ⟨_, 1, [], rfl, by simp only; omega⟩
+          · exact ⟨_, 0, _, rfl, by simp only; omega⟩
+    | [a] =>
+      simp only
+      by_cases hn : (!n) = true
+      · rw [if_pos hn]
+        split
+        · exact ⟨s, 1, [], rfl, h⟩
+        · exact ⟨_, 0, _, rfl, by simp⟩
+      · rw [if_neg hn]
+        obtain ⟨st, top, hs, hl⟩ := swapTop_spec (s.stack ++ [a]) (by simp; omega)
+        rw [hs]
+        exact ⟨_, 0, _, rfl, by simp only [hl, List.length_append, List.length_cons, List.length_nil]; omega⟩
+    | _ :: _ :: _ => exact ⟨s, 2, [], rfl, h⟩
+  | popd n args =>
+    simp only [dstep]
+    match args with
+    | [] =>
+      simp only
+      by_cases h2 : s.stack.length < 2
+      · rw [if_pos h2]; exact ⟨s, 1, [], rfl, h⟩
+      · rw [if_neg h2]
+        rw [getI_ok _ _ (by omega) (by omega), sliceToI_ok _ _ (by omega) (by omega)]
+        simp only
+        have hl : (List.take ((s.stack.length : Int) - 1).toNat s.stack).length = s.stack.length - 1 := by
+          rw [List.length_take]; omega
+        by_cases hn : (!n) = true
+        · rw [if_pos hn, getI_ok _ _ (by omega) (by omega)]
+          simp only
+          split
+          · exact ⟨_, 1, [], rfl, by simp only; omega⟩
+          · exact ⟨_, 0, _, rfl, by simp only; omega⟩
+        · rw [if_neg hn, setI_ok _ _ _ (by omega) (by omega)]
+          exact ⟨_, 0, _, rfl, by simp only [List.length_set]; omega⟩
+    | _ :: _ => exact ⟨s, 2, [], rfl, h⟩
+
+theorem drun_safe (fs : List Bytes) (ops : List DOp) : ∀ (s : DState), 1 ≤ s.stack.length →
+    ∃ s' tr, drun fs s ops = .ok (s', tr) ∧ 1 ≤ s'.stack.length := by
+  induction ops with
+  | nil => intro s h; exact ⟨s, [], rfl, h⟩
+  | cons op ops ih =>
+    intro s h
+    obtain ⟨s1, code, out, h1, hl1⟩ := dstep_spec fs s op h
+    obtain ⟨s2, tr, h2, hl2⟩ := ih s1 hl1
+    unfold drun
+    rw [h1]
+    simp only
+    rw [h2]
+    exact ⟨s2, _, rfl, hl2⟩
+
+/-! ### slicing -/
+
+theorem slicePos_bounds (len : Nat) (n : Int) : 0 ≤ slicePos len n ∧ slicePos len n ≤ (len : Int) := by
+  unfold slicePos
+  simp only
+  split
+  · split <;> omega
+  · split <;> omega
+
+theorem sliceFrom_pos {α : Type} (l : List α) (n : Int) :
+    ∃ r, sliceFromI l (slicePos l.length n) = .ok r := by
+  obtain ⟨h0, h1⟩ := slicePos_bounds l.length n
+  exact ⟨_, sliceFromI_ok l _ h0 (by omega)⟩
+
+theorem sliceTo_pos {α : Type} (l : List α) (n : Int) :
+    ∃ r, sliceToI l (slicePos l.length n) = .ok r := by
+  obtain ⟨h0, h1⟩ := slicePos_bounds l.length n
+  exact ⟨_, sliceToI_ok l _ h0 (by omega)⟩
+
+theorem sliceOff_ok {α : Type} (l : List α) (off : Option Int) : ∃ r, sliceOff l off = .ok r := by
+  cases off with
+  | none => exact ⟨l, rfl⟩
+  | some o => exact sliceFrom_pos l o
+
+theorem sliceLen_ok {α : Type} (l : List α) (len : Option Int) : ∃ r, sliceLen l len = .ok r := by
+  cases len with
+  | none => exact ⟨l, rfl⟩
+  | some o => exact sliceTo_pos l o
+
+theorem sliceStr_safe (rs : List Nat) (off len : Option Int) : sliceStr rs off len ≠ .panic := by
+  unfold sliceStr
+  obtain ⟨r, hr⟩ := sliceOff_ok rs off
+  obtain ⟨r2, hr2⟩ := sliceLen_ok r len
+  rw [hr]; simp only; rw [hr2]
+  intro h; cases h
+
+theorem bsearch_spec (x : List Int) (t : Int) : ∀ (fuel i j : Nat), i ≤ j → j ≤ x.length →
+    ∃ r, bsearch x t fuel i j = .ok r ∧ r ≤ j := by
+  intro fuel
+  induction fuel with
+  | zero => intro i j hij _; exact ⟨i, rfl, hij⟩
+  | succ fuel ih =>
+    intro i j hij hj
+    unfold bsearch
+    by_cases hlt : i < j
+    · rw [if_pos hlt]
+      simp only
+      have hh : (i + j) / 2 < x.length := by omega
+      rw [getN_ok x _ hh]
+      simp only
+      split
+      · obtain ⟨r, hr, hle⟩ := ih ((i + j) / 2 + 1) j (by omega) hj
+        exact ⟨r, hr, hle⟩
+      · obtain ⟨r, hr, hle⟩ := ih i ((i + j) / 2) (by omega) (by omega)
+        exact ⟨r, hr, by omega⟩
+    · rw [if_neg hlt]; exact ⟨i, rfl, hij⟩
+
+theorem sliceElemsOff_ok {α : Type} (elems : List α) (indexes : List Int) (off : Option Int)
+    (h : indexes = [] ∨ indexes.length = elems.length) : ∃ r, sliceElemsOff elems indexes off = .ok r := by
+  cases off with
+  | none => exact ⟨elems, rfl⟩
+  | some o =>
+    simp only [sliceElemsOff]
+    by_cases hi : indexes.length > 0
+    · rw [if_pos hi, getI_ok _ _ (by omega) (by omega)]
+      simp only
+      have hlen : indexes.length = elems.length := by
+        rcases h with h | h
+        · rw [h] at hi; simp at hi
+        · exact h
+      obtain ⟨pos, hp, hle⟩ := bsearch_spec indexes
+        (sparseOffset o (indexes[((indexes.length : Int) - 1).toNat]'(by omega)))
+        (indexes.length + 1) 0 indexes.length (Nat.zero_le _) (Nat.le_refl _)
+      rw [hp]
+      simp only
+      exact ⟨_, sliceFromN_ok elems pos (by omega)⟩
+    · rw [if_neg hi]
+      exact sliceFrom_pos elems o
+
+theorem sliceElems_safe {α : Type} (elems : List α) (indexes : List Int) (off len : Option Int)
+    (h : indexes = [] ∨ indexes.length = elems.length) : sliceElems elems indexes off len ≠ .panic := by
+  unfold sliceElems
+  obtain ⟨r, hr⟩ := sliceElemsOff_ok elems indexes off h
+  obtain ⟨r2, hr2⟩ := sliceLen_ok r len
+  rw [hr]; simp only; rw [hr2]
+  intro h; cases h
+
 end ShVerif.C28
